@@ -712,6 +712,177 @@ func runConstRel(c *core.Ctx) []core.Obligation {
 		})
 		add("findEdgesInternal:conservative-flag", c.Pos(fn.Pos()), core.FuncName(fn), ok, "useConservativeCellDistance requires zero < distanceLimit - maxError (or an infinite limit)", why)
 	}
+	// (5) maxDeterminantError bounds the error of (A x B) . C for unit vectors with the plain cross product: whatever
+	// is compared with it is Dot(Cross(a, b), c), or Dot(field, c) for a field that only ever holds such a cross product
+	if k, ok := c.Pkgs["s2"].Types.Scope().Lookup("maxDeterminantError").(*types.Const); ok {
+		want, _ := constant.Float64Val(constant.ToFloat(k.Val()))
+		isCross := func(v ssa.Value) bool {
+			// Cross(...) possibly wrapped into Point{...}
+			for i := 0; i < 4; i++ {
+				switch x := v.(type) {
+				case *ssa.Call:
+					f := core.StaticCallee(x)
+					return f != nil && f.Name() == "Cross"
+				case *ssa.UnOp: // load of a composite literal temp
+					if al, isAl := x.X.(*ssa.Alloc); isAl {
+						for _, r := range *al.Referrers() {
+							if fa, isFa := r.(*ssa.FieldAddr); isFa {
+								for _, rr := range *fa.Referrers() {
+									if st, isSt := rr.(*ssa.Store); isSt && st.Addr == ssa.Value(fa) {
+										v = st.Val
+									}
+								}
+							}
+						}
+						continue
+					}
+					return false
+				default:
+					return false
+				}
+			}
+			return false
+		}
+		fieldHoldsCross := func(name string) (bool, string) {
+			okAll, n, where := true, 0, ""
+			for _, fn := range c.GeoFuncs() {
+				core.AllInstrs(fn, func(in ssa.Instruction) {
+					st, isSt := in.(*ssa.Store)
+					if !isSt {
+						return
+					}
+					fr, isF := core.AsFieldAddr(st.Addr)
+					// a composite literal Point{v} may be built in place: &(&x.name).Vector = v
+					if isF && fr.Name == "Vector" {
+						if outer, isOuter := core.AsFieldAddr(fr.Base); isOuter {
+							fr = outer
+						}
+					}
+					if !isF || fr.Name != name {
+						return
+					}
+					n++
+					if !isCross(st.Val) {
+						okAll, where = false, core.FuncName(fn)
+					}
+				})
+			}
+			return okAll && n > 0, where
+		}
+		n := 0
+		for _, fn := range c.GeoFuncs() {
+			perFn := 0
+			core.AllInstrs(fn, func(in ssa.Instruction) {
+				bo, isBo := in.(*ssa.BinOp)
+				if !isBo || (bo.Op != token.GTR && bo.Op != token.LSS) {
+					return
+				}
+				kc, isK := bo.Y.(*ssa.Const)
+				if !isK || kc.Value == nil || kc.Value.Kind() != constant.Float {
+					return
+				}
+				f, _ := constant.Float64Val(kc.Value)
+				if math.Abs(f) != want {
+					return
+				}
+				n++
+				perFn++
+				construct := fmt.Sprintf("maxDeterminantError:operand:%s#%d", core.FuncName(fn), perFn)
+				good, why := false, "the compared value is not a determinant Dot(Cross(a, b), c)"
+				if dot, isCall := bo.X.(*ssa.Call); isCall && core.StaticCallee(dot) != nil && core.StaticCallee(dot).Name() == "Dot" && len(dot.Call.Args) == 2 {
+					a := dot.Call.Args[0]
+					if isCross(a) {
+						good = true
+					} else if fr, isF := core.AsFieldLoad(a); isF {
+						// e.aXb.Vector: step out of the embedded r3.Vector to the field that holds the point
+						if fr.Name == "Vector" {
+							if outer, isOuter := core.AsFieldAddr(fr.Base); isOuter {
+								fr = outer
+							} else if outer, isOuter := core.AsFieldLoad(fr.Base); isOuter {
+								fr = outer
+							}
+						}
+						if fr.Name == "Vector" {
+							why = "the determinant's first factor could not be traced to a Cross product"
+						} else if holds, where := fieldHoldsCross(fr.Name); holds {
+							good = true
+						} else {
+							why = "the determinant uses the cached vector " + fr.Name + ", which " + where + " assigns something other than a plain Cross product (e.g. PointCross, which is (a+b)x(b-a) = 2 a x b with extra roundings): the absolute bound maxDeterminantError was derived for a x b of unit vectors and is too small for it"
+						}
+					} else if fl, isFl := a.(*ssa.Field); isFl {
+						_ = fl
+						why = "the determinant's first factor could not be traced to a Cross product"
+					}
+				}
+				add(construct, c.Pos(bo.Pos()), core.FuncName(fn), good, "the bound is applied to (a x b) . c computed with the plain cross product of the arguments", why)
+			})
+		}
+		if n < 2 {
+			add("maxDeterminantError:operand:anchor", "-", "", false, "", fmt.Sprintf("only %d comparisons with maxDeterminantError found, 2 expected", n))
+		}
+	}
+	// (6) RectBounder.AddPoint: the threshold on |N| (1.91346e-15) and the 3.84-epsilon direction error it guarantees were
+	// derived for N = (A - B) x (A + B) = 2 A x B, the cross product that stays accurate for nearly parallel vectors
+	if fn := c.Fn("s2", "RectBounder", "AddPoint"); fn != nil {
+		ok, why := false, "the comparison of the normal's length with 1.91346e-15 was not found"
+		core.AllInstrs(fn, func(in ssa.Instruction) {
+			bo, isBo := in.(*ssa.BinOp)
+			if !isBo || bo.Op != token.LSS {
+				return
+			}
+			kc, isK := bo.Y.(*ssa.Const)
+			if !isK || kc.Value == nil || kc.Value.Kind() != constant.Float {
+				return
+			}
+			if f, _ := constant.Float64Val(kc.Value); math.Abs(f-1.91346e-15) > 1e-20 {
+				return
+			}
+			norm, isCall := bo.X.(*ssa.Call)
+			if !isCall || core.StaticCallee(norm) == nil || core.StaticCallee(norm).Name() != "Norm" {
+				why = "the value compared with 1.91346e-15 is not the length of the edge normal"
+				return
+			}
+			narg := norm.Call.Args[0]
+			if ld, isLd := narg.(*ssa.UnOp); isLd { // n spilled to a local
+				if al, isAl := ld.X.(*ssa.Alloc); isAl {
+					var vals []ssa.Value
+					for _, r := range *al.Referrers() {
+						if st, isSt := r.(*ssa.Store); isSt && st.Addr == ssa.Value(al) {
+							vals = append(vals, st.Val)
+						}
+					}
+					if len(vals) == 1 {
+						narg = vals[0]
+					}
+				}
+			}
+			switch x := narg.(type) {
+			case *ssa.Call:
+				f := core.StaticCallee(x)
+				switch {
+				case f != nil && f.Name() == "PointCross":
+					ok = true
+				case f != nil && f.Name() == "Cross" && len(x.Call.Args) == 2:
+					names := map[string]bool{}
+					for _, a := range x.Call.Args {
+						if ac, isC := a.(*ssa.Call); isC && core.StaticCallee(ac) != nil {
+							names[core.StaticCallee(ac).Name()] = true
+						}
+					}
+					if names["Sub"] && names["Add"] {
+						ok = true
+					} else {
+						why = "the edge normal is the plain cross product of the two endpoints: for a short edge its direction error is about epsilon/|A-B| (1e-13..1e-9 rad), far beyond the 3.84 epsilon that the threshold on |N| and the final padding assume, so the latitude extremum of the edge can fall outside the bound"
+					}
+				default:
+					why = "the edge normal is not computed as (A - B) x (A + B): the threshold on |N| and the 3.84-epsilon direction error it guarantees hold for that form only (a plain or rescaled A x B loses about epsilon/|A-B| in direction on short edges)"
+				}
+			default:
+				why = "the edge normal is not computed as (A - B) x (A + B): the threshold on |N| and the 3.84-epsilon direction error it guarantees hold for that form only"
+			}
+		})
+		add("RectBounder.AddPoint:robust-normal", c.Pos(fn.Pos()), core.FuncName(fn), ok, "the normal whose length is tested against 1.91346e-15 is (A - B) x (A + B)", why)
+	}
 	_ = sort.Strings
 	return obs
 }
@@ -760,22 +931,46 @@ func stableBoundPairs(fn *ssa.Function) (bool, string) {
 		}
 		return nil, false
 	}
-	// the bound: K * Q (K constant) compared with the determinant
+	// the bound: the value the determinant is compared with (det > maxErr); constant factors are dropped
 	var bound ssa.Value
 	core.AllInstrs(fn, func(in ssa.Instruction) {
 		bo, ok := in.(*ssa.BinOp)
-		if !ok || bo.Op != token.MUL {
+		if !ok || bo.Op != token.GTR || bound != nil {
 			return
 		}
-		if _, isK := bo.X.(*ssa.Const); isK {
+		x := bo.X
+		if u, isU := x.(*ssa.UnOp); isU && u.Op == token.SUB {
+			x = u.X
+		}
+		if callee(x, "Dot") != nil {
 			bound = bo.Y
-		} else if _, isK := bo.Y.(*ssa.Const); isK {
-			bound = bo.X
 		}
 	})
 	if bound == nil {
-		return false, "the error bound (constant * length product) was not found"
+		return false, "the comparison of the determinant with its error bound was not found"
 	}
+	var stripConst func(v ssa.Value) ssa.Value
+	stripConst = func(v ssa.Value) ssa.Value {
+		if bo, ok := v.(*ssa.BinOp); ok && bo.Op == token.MUL {
+			if _, isK := bo.X.(*ssa.Const); isK {
+				return stripConst(bo.Y)
+			}
+			if _, isK := bo.Y.(*ssa.Const); isK {
+				return stripConst(bo.X)
+			}
+			// (K * a) * b  ->  a * b
+			if inner, ok := bo.X.(*ssa.BinOp); ok && inner.Op == token.MUL {
+				if _, isK := inner.X.(*ssa.Const); isK {
+					return &ssa.BinOp{Op: token.MUL, X: inner.Y, Y: bo.Y}
+				}
+				if _, isK := inner.Y.(*ssa.Const); isK {
+					return &ssa.BinOp{Op: token.MUL, X: inner.X, Y: bo.Y}
+				}
+			}
+		}
+		return v
+	}
+	bound = stripConst(bound)
 	check := func(vecs []ssa.Value, a, b ssa.Value, where string) (bool, string) {
 		if len(vecs) != 2 {
 			return false, fmt.Sprintf("%sthe bound multiplies %d lengths, expected 2", where, len(vecs))
